@@ -103,6 +103,14 @@ def _get(thunk):
 def read_impl(kind, acc):
     out = {'n': _get(lambda: acc.n)}
     out['value'] = _get(lambda: acc.value)
+    if kind in ('min', 'max'):
+        # an extremum of integers is one of those integers, exactly (also beyond 2**53, where a float cannot say which)
+        try:
+            a = np.asarray(acc.value)
+            out['exact_int'] = [int(t) for t in a.ravel().tolist()] if a.dtype.kind in 'iu' else None
+            out['dtype_kind'] = a.dtype.kind
+        except Exception:  # noqa
+            out['exact_int'] = None
     if kind == 'mean':
         out['sum'] = _get(lambda: acc.sum)
     if kind in ('var', 'rvar'):
@@ -139,11 +147,15 @@ def run_impl(program, on_push=None):
     A = accmod()
     regs, kinds, outs = {}, {}, []
     reuse, bufs = False, {}
+    rows = False
     nspell = 0
     for op in program:
         t = op[0]
         if t == 'mode':
-            reuse = op[1] == 'reuse'
+            if op[1] == 'rows':
+                rows = True
+            else:
+                reuse = op[1] == 'reuse'
         elif t == 'trip':
             regs[op[1]] = roundtrip(regs[op[1]], op[2])
         elif t == 'push' and reuse and isinstance(to_obj(op[2]), np.ndarray) and to_obj(op[2]).ndim >= 1:
@@ -171,6 +183,8 @@ def run_impl(program, on_push=None):
             kinds[r] = kind
         elif t == 'push':
             obj = to_obj(op[2])
+            if rows and isinstance(obj, np.ndarray) and obj.ndim == 1:
+                obj = obj.reshape((1,) + obj.shape)     # the same observation as a one-row block (data[i:i+1], np.atleast_2d)
             nspell += 1
             try:
                 bad = _feed(regs, op[1], obj, nspell)
@@ -221,6 +235,8 @@ def gen_history_ops(rng, program, p_reuse=0.25, p_trip=0.25):
     meta = {}
     if rng.random() < p_reuse:
         meta['reuse_buffer'] = True
+    elif program and program[0][0] == 'new' and program[0][2] == 'cov' and rng.random() < 0.35:
+        meta['row_vectors'] = True
     if rng.random() < p_trip:
         pushes = [i for i, op in enumerate(program) if op[0] in ('push', 'merge') and i > 1]
         if pushes:
@@ -237,6 +253,8 @@ def apply_history_ops(program, meta):
             prog.insert(i, ['trip', prog[i][1], kind])
     if meta.get('reuse_buffer'):
         prog.insert(0, ['mode', 'reuse'])
+    if meta.get('row_vectors'):
+        prog.insert(0, ['mode', 'rows'])
     return prog
 
 
